@@ -1,6 +1,7 @@
 (** Properties/C19.v — "Glyph widths and Unicode maps follow the font dictionaries exactly".
     Only statements, each closed by [exact] of a lemma proved in Font/*Proofs.v. *)
-From PdfV Require Import Base.Prelude Gen.Generated Font.Model Font.Spec Font.WidthProofs Font.UtfProofs.
+From Coq Require Import Sorted.
+From PdfV Require Import Base.Prelude Gen.Generated Font.Model Font.Spec Font.WidthProofs Font.UtfProofs Font.CmapProofs.
 
 (** the width table: after [_set w c x] (which never panics, in any of its five growth cases)
     code c has width x and every other code keeps its width *)
@@ -50,6 +51,42 @@ Print Assumptions C19_simple_widths.
 Theorem C19_utf16_rt : forall u, forallb is_scalar u = true -> utf16be_to_string (utf16be_bytes u) = Ok u.
 Proof. exact utf16_rt. Qed.
 Print Assumptions C19_utf16_rt.
+
+(** the CMap reader: every well-formed text of bfchar sections and bfrange sections (array form), in the
+    spelling of [render_cmap], is read by parse_cmap — running on the crate's lexer, hex-string lexer and
+    array parser — as exactly the map the specification defines (later entries replace earlier ones) *)
+Theorem C19_cmap_read : forall t, wf_cmap t -> parse_cmap (render_cmap t) = Ok (cmap_denote t).
+Proof. exact cmap_read. Qed.
+Print Assumptions C19_cmap_read.
+
+(** the writer's tokens are that spelling: write_cid / write_unicode emit <…> with two upper-case hex
+    digits per byte of the big-endian code / of the UTF-16BE form of the string *)
+Theorem C19_write_tokens_standard :
+  (forall c, c < 65536 -> write_cid c = hstr (cid_bytes c)) /\
+  (forall u, wf_ustr u -> write_unicode u = hstr (utf16be_bytes u)).
+Proof. exact (conj write_cid_std write_unicode_std). Qed.
+Print Assumptions C19_write_tokens_standard.
+
+(** the full statement about the writer; NOT proved universally (see DESIGN §12.C19): validated on every
+    generated map by the correspondence mode cmap_rt against the specification, and here on a concrete map *)
+Definition C19_cmap_rt_full_statement : Prop :=
+  forall m : cmap, (forall e, In e m -> fst e < 65536 /\ wf_ustr (snd e)) ->
+    StronglySorted (fun a b => fst a < fst b) m ->
+    exists t, write_cmap m = Ok t /\ parse_cmap t = Ok m.
+
+Example C19_cmap_rt_example :
+  let m := [(0, [65]); (1, [66; 128512]); (2, []); (7, [1114111]); (9, [97]); (10, [98]); (300, [55295]);
+            (65534, [57344]); (65535, [65535])] in
+  exists t, write_cmap m = Ok t /\ parse_cmap t = Ok m.
+Proof. exact cmap_rt_example. Qed.
+
+Example C19_cmap_text_example :
+  let t := [SChar [(65, [97]); (66, [128512; 98])]; SRange [(16, 18, [[120]; []; [1114111]]); (65535, 65535, [[122]])]; SChar []] in
+  wf_cmap t /\ cmap_denote t = [(16, [120]); (17, []); (18, [1114111]); (65, [97]); (66, [128512; 98]); (65535, [122])].
+Proof.
+  split; [|vm_compute; reflexivity].
+  repeat constructor; cbn; lia.
+Qed.
 
 (** non-vacuity *)
 Example C19_groups_example :
